@@ -49,8 +49,11 @@ VARIABLES pars,           \* function: DOMAIN = names present -> token
           other,          \* the other object's attributes: function names -> token
           ret,            \* what the last call returned / raised
           hist,
-          other0          \* the other object's attributes at the start (never changes)
-vars == <<pars, varylist, variable_list, stepsizes, file, other, ret, hist, other0>>
+          other0,         \* the other object's attributes at the start (never changes)
+          kind            \* "none", or the kind of API call chosen for the next step (two-phase steps make TLC's simulation mode,
+                          \* which picks uniformly among successor STATES, pick uniformly among the 13 KINDS of call first - otherwise
+                          \* save/load/update_* (one successor each) would almost never be simulated next to addpar (hundreds))
+vars == <<pars, varylist, variable_list, stepsizes, file, other, ret, hist, other0, kind>>
 
 Put(f, n, v) == [m \in DOMAIN f \cup {n} |-> IF m = n THEN v ELSE f[m]]
 Has(s, n) == \E i \in 1..Len(s) : s[i] = n
@@ -63,7 +66,7 @@ Log(e) == hist' = Append(hist, [e |-> e, post |-> [pars |-> pars', varylist |-> 
 Init == /\ pars = <<>> /\ varylist = <<>> /\ variable_list = <<>> /\ stepsizes = <<>>
         /\ file = [exists |-> FALSE, lines |-> <<>>] /\ ret = R("none", 0) /\ hist = <<>>
         /\ other \in {<<>>} \cup {[n \in S |-> Toks[1]] : S \in {{NameSeq[1]}, Names}}
-        /\ other0 = other
+        /\ other0 = other /\ kind = "none"
 
 AddPar(n, v, vary, cv, st) ==
   /\ pars' = Put(pars, n, v)
@@ -146,21 +149,31 @@ SmallSeqs(S) == {<<>>} \cup {<<a>> : a \in S} \cup {<<a, b>> : a \in S, b \in S}
 Dicts == {[n \in S |-> t] : S \in {{NameSeq[1]}, {NameSeq[Len(NameSeq)]}, Names}, t \in TokSet}
          \cup {<<>>}
 
-Free == \/ \E n \in Names, v \in TokSet, vary \in Bools, cv \in Bools : AddPar(n, v, vary, cv, Toks[1])
-        \/ \E n \in Names, v \in TokSet : Set(n, v)
-        \/ \E d \in Dicts : SetParameters(d)
-        \/ \E n \in Names : Get(n)
-        \/ \E vl \in SmallSeqs(Names) : SetVarylist(vl)
-        \/ \E vs \in SmallSeqs(TokSet) : SetVariableValues(vs)
-        \/ GetVariableValues \/ UpdateOther \/ UpdateYourself
-        \/ \E n \in Names, v \in TokSet : OtherSet(n, v)
-        \/ Save \/ Load \/ LoadFresh
+Kinds == {"addpar", "set", "set_parameters", "get", "set_varylist", "set_variable_values", "get_variable_values",
+          "update_other", "update_yourself", "other_set", "save", "load", "load_fresh"}
+OfKind(k) ==
+  CASE k = "addpar" -> \E n \in Names, v \in TokSet, vary \in Bools, cv \in Bools : AddPar(n, v, vary, cv, Toks[1])
+    [] k = "set" -> \E n \in Names, v \in TokSet : Set(n, v)
+    [] k = "set_parameters" -> \E d \in Dicts : SetParameters(d)
+    [] k = "get" -> \E n \in Names : Get(n)
+    [] k = "set_varylist" -> \E vl \in SmallSeqs(Names) : SetVarylist(vl)
+    [] k = "set_variable_values" -> \E vs \in SmallSeqs(TokSet) : SetVariableValues(vs)
+    [] k = "get_variable_values" -> GetVariableValues
+    [] k = "update_other" -> UpdateOther
+    [] k = "update_yourself" -> UpdateYourself
+    [] k = "other_set" -> \E n \in Names, v \in TokSet : OtherSet(n, v)
+    [] k = "save" -> Save
+    [] k = "load" -> Load
+    [] k = "load_fresh" -> LoadFresh
+Free == IF kind = "none"
+          THEN \E k \in Kinds : kind' = k /\ UNCHANGED <<pars, varylist, variable_list, stepsizes, file, other, ret, hist>>
+          ELSE OfKind(kind) /\ kind' = "none"
 Named(a) == CASE a = "save" -> Save [] a = "load" -> Load [] a = "load_fresh" -> LoadFresh
               [] a = "get_variable_values" -> GetVariableValues
               [] a = "update_yourself" -> UpdateYourself [] a = "update_other" -> UpdateOther
 Next == /\ Len(hist) < Depth
         /\ LET k == Len(hist) - (Depth - Len(ForcedTail)) IN
-             IF k >= 0 THEN Named(ForcedTail[k + 1]) ELSE Free
+             IF k >= 0 THEN Named(ForcedTail[k + 1]) /\ kind' = "none" ELSE Free
 Spec == Init /\ [][Next /\ UNCHANGED other0]_vars
 
 ---------------------------------------------------------------------------
